@@ -80,6 +80,7 @@ func runC04(c *Ctx, r *Report) {
 	r.Rule("C04.R1", "cache write gate: every Cache.Set call is confined to the edge where the callee environment's miss counter did not change across the body evaluation and to the edge where the result is not an ERROR; it stores the evaluated result, the same key as the lookup, and the bytes of the buffer installed as s.Out for that evaluation")
 	r.Rule("C04.R2", "every source of uncacheability reaches the miss counter: info lookups, stored references and new references to non-constant non-function outer bindings (no other condition may skip the increment), del, DontCache extensions before the callback runs, and propagation of the callee's cantCache flag; TriggerNoCache sets the flag and bumps the counter unconditionally")
 	r.Rule("C04.R3", "extension purity: a registration whose callback (call-graph reach cut at interpreter re-entry) touches the OS, the clock, a random source, package-level state mutated at run time, or that carries ClientData, has DontCache=true")
+	r.Rule("C04.R5", "what is cached can be handed out again: the cache write is confined to the edge where the result is not a function value (a closure carries the environment of the call that made it), and a container result is not storage that is updated in place (today it is, for the large representations: known finding)")
 	r.Rule("C04.R4", "hashability agrees with key equality: every tag Hashable accepts outright maps to Go-comparable concrete types only, and for each composite it accepts every Object-typed component is checked by a recursive Hashable call whose failure returns false")
 	r.Rule("C04.R5", "replay on hit: on the hit edge of Cache.Get the cached output bytes are written to the current s.Out before the cached result is returned")
 
@@ -142,6 +143,12 @@ func runC04(c *Ctx, r *Report) {
 				res := args[3]
 				r.Check(evalCall != nil && res == ssa.Value(evalCall), "C04.R1", fname, "cached result is the evaluated body result", pos, "the value stored in the cache is not the result of the body evaluation guarded by the miss test")
 				r.Check(c.tagExcludedAt(res, errTag, call.Block()), "C04.R1", fname, "Cache.Set confined to the result-is-not-ERROR edge", pos, "an error result can be cached (no dominating Type()==ERROR test on the stored result)")
+				// (b') what is cached can be handed out again and again: not a closure (it carries the environment of
+				// the call that made it), not the storage of a large container (updated in place by index assignment)
+				r.Check(c.tagExcludedAt(res, c.tagConst("FUNC"), call.Block()), "C04.R5", fname, "Cache.Set confined to the result-is-not-a-function edge", pos,
+					"a function value can be cached: it holds the environment of the call that made it, so every hit hands out the same captured variables (func mk(){c=0; ()=>{c=c+1;c}}; a=mk(); b=mk() share c)")
+				r.Check(c.tagExcludedAt(res, c.tagConst("ARRAY"), call.Block()) && c.tagExcludedAt(res, c.tagConst("MAP"), call.Block()), "C04.R5", fname, "a cached container is not storage that can be updated in place", pos,
+					"an array or map result is cached as is: for the large representations (more than 8 elements / 4 pairs) every hit returns the same storage, which index assignment updates in place, so changing one result changes the next call's")
 				// (c) same key as the lookup
 				sameKey := false
 				for _, g := range callsIn(fn, cacheGet) {
@@ -280,6 +287,47 @@ func runC04(c *Ctx, r *Report) {
 				}
 				r.Check(dom, "C04.R2", fname, "info lookup triggers no-cache", c.Pos(ic.Pos()), "Get(\"info\") returns the environment description without marking the call uncacheable")
 			}
+		}
+	}
+	// catch(): an error turned into a value marks the call uncacheable (errors are never cached directly)
+	{
+		fn := c.SSAFn(c.Fn("eval", "State.evalBuiltin"))
+		errT := c.TypeNamed("object", "Error")
+		n := 0
+		eachInstr(fn, func(in ssa.Instruction) {
+			ta, ok := in.(*ssa.TypeAssert)
+			if !ok || !types.Identical(ta.AssertedType, errT) {
+				return
+			}
+			// only where the error's text is taken to build another value (not where the error itself is returned)
+			takesText := false
+			for _, ref := range *ta.Referrers() {
+				if f, ok := ref.(*ssa.Field); ok && f.Field == fieldIndex(errT, "Value") {
+					takesText = true
+				}
+				if ex, ok := ref.(*ssa.Extract); ok && ex.Index == 0 {
+					for _, r2 := range *ex.Referrers() {
+						if f, ok := r2.(*ssa.Field); ok && f.Field == fieldIndex(errT, "Value") {
+							takesText = true
+						}
+					}
+				}
+			}
+			if !takesText {
+				return
+			}
+			n++
+			dom := false
+			for _, tc := range callsIn(fn, trigger) {
+				if instrDominates(tc, ta) {
+					dom = true
+				}
+			}
+			r.Check(dom, "C04.R1", ssaFuncName(fn), "an error turned into a value (catch) triggers no-cache", c.Pos(ta.Pos()),
+				"the text of an Error object is taken to build an ordinary value and TriggerNoCache does not precede it: the caller is memoized with the caught error (a deadline error of one input is then served for the rest of the session), although error results are never cached")
+		})
+		if n == 0 {
+			r.Undecided("C04.R1: no conversion of an Error into a value found in evalBuiltin (catch expected)")
 		}
 	}
 	// writes to a variable outside of the current frame are misses whatever it held
